@@ -114,7 +114,7 @@ def graph_stream(ctx, n):
 def runs_case(rng):
     """disjoint storm runs and disjoint rise runs on 0..L; one side may consist of long runs (hours of
     continuous heavy rain on 1-minute data) while the other has many short ones far apart inside them"""
-    shape = rng.choice(["short", "short", "short", "long-storms", "long-rises"])
+    shape = rng.choice(["short", "short", "short", "long-storms", "long-rises", "mixed", "mixed"])
     L = rng.randint(4, 24) if shape == "short" else rng.randint(2000, 12000)
 
     def runs(long):
@@ -124,6 +124,18 @@ def runs_case(rng):
             out.append((i, min(i + k, L)))
             i += k + (rng.randint(1, 3) if (long or shape == "short") else rng.randint(1, 1500))
         return out
+
+    def mixed():
+        # short and very long runs next to one another, a step or two apart: a shower just before days of steady rain,
+        # a brief rise next to a long one (durations differing by thousands of steps, starts by a few)
+        out, i = [], rng.randint(0, 5)
+        while i < L:
+            k = rng.randint(800, 4000) if rng.random() < 0.3 else rng.randint(1, 8)
+            out.append((i, min(i + k, L)))
+            i += k + rng.randint(1, 4)
+        return out
+    if shape == "mixed":
+        return mixed(), mixed()
     return runs(shape == "long-storms"), runs(shape == "long-rises")
 
 
